@@ -4,6 +4,7 @@ package c12
 
 import (
 	"bytes"
+	"fmt"
 
 	"github.com/lugu/qiloop/bus"
 	"github.com/lugu/qiloop/bus/net"
@@ -243,7 +244,87 @@ func multiset(seq []hostile) string {
 	return s
 }
 
+// cuts: a valid frame is cut at every byte position and the connection is
+// closed (or left open and silent); everybody else must still be served.
+func cuts() {
+	w := fx.Start(bus.Yes{})
+	good := w.MustConnect()
+	child, err := good.Probe(1).Spawn()
+	if err != nil {
+		vrt.Failf("harness/spawn", "%v", err)
+		return
+	}
+	childID := child.Proxy().ObjectID()
+	h := w.RawPeer()
+	h.StartDrain()
+	if !h.Authenticate("", "") {
+		vrt.Failf("harness/auth", "raw peer could not authenticate")
+		return
+	}
+	frames := []hostile{
+		{name: "register(77)", typ: net.Call, svc: 1, obj: 1, act: 0, pay: regPayload(1, 105, 77)},
+		{name: "echo(5)", typ: net.Call, svc: 1, obj: 1, act: 100, pay: fx.Int32(5)},
+		{name: "setProperty(level,7)", typ: net.Call, svc: 1, obj: 1, act: 6, pay: values(value.String("level"), value.Int(7))},
+	}
+	f := frames[vrt.ChooseFree(len(frames), "frame")]
+	var buf bytes.Buffer
+	m := net.NewMessage(net.NewHeader(f.typ, f.svc, f.obj, f.act, h.NextID()), f.pay)
+	m.Write(&buf)
+	// a complete frame first (so that a registration exists), then the cut one
+	h.SendRaw(buf.Bytes())
+	cut := vrt.ChooseFree(buf.Len(), "cut-position")
+	closeAfter := vrt.ChooseFree(2, "close-after-cut") == 1
+	vrt.Explore()
+	m2 := net.NewMessage(net.NewHeader(f.typ, f.svc, f.obj, f.act, h.NextID()), f.pay)
+	var buf2 bytes.Buffer
+	m2.Write(&buf2)
+	h.SendRaw(buf2.Bytes()[:cut])
+	vrt.Quiesce()
+	if closeAfter {
+		h.Raw.Close()
+		vrt.Quiesce()
+	}
+	okRoot, okChild, okGood := false, false, false
+	pw := vrt.GoWorker("probe-client", func() {
+		c, err := w.Connect("", "")
+		if err != nil {
+			return
+		}
+		if v, err := c.Probe(1).Echo(21); err == nil && v == probe.EchoResult(21) {
+			okRoot = true
+		}
+		if v, err := c.Probe(childID).Echo(22); err == nil && v == probe.EchoResult(22) {
+			okChild = true
+		}
+	})
+	gw := vrt.GoWorker("good-client", func() {
+		if v, err := good.Probe(1).Echo(23); err == nil && v == probe.EchoResult(23) {
+			okGood = true
+		}
+	})
+	vrt.Quiesce()
+	what := fmt.Sprintf("%s cut after %d of %d bytes, close=%v", f.name, cut, buf2.Len(), closeAfter)
+	switch lws := vrt.LockWaiters(); {
+	case len(lws) > 0:
+		vrt.Failf("deadlock/cut-frame/"+f.name, "thread %s blocked on %s after %s", lws[0].Thread, lws[0].Label, what)
+	case !pw.Done() || !gw.Done():
+		vrt.Failf("client-not-served/cut-frame/"+f.name, "a client is not served after %s", what)
+	case !okRoot || !okChild || !okGood:
+		vrt.Failf("object-dead/cut-frame/"+f.name, "root=%v child=%v established=%v after %s", okRoot, okChild, okGood, what)
+	}
+	if cut == 0 {
+		vrt.Flag("nothing-sent")
+	} else if cut < 28 {
+		vrt.Flag("cut-in-header")
+	} else {
+		vrt.Flag("cut-in-payload")
+	}
+	vrt.Observe("%s", what)
+}
+
 func init() {
+	reg.Register(&reg.Scenario{Property: "C12", Name: "cut-frames", Body: cuts, Quick: 0, Thorough: 1,
+		Doc: "an authenticated peer sends a complete frame, then the same frame cut at every byte position, and closes or stays silent; then a fresh and an established client call every object", MustFlag: []string{"cut-in-header", "cut-in-payload"}})
 	reg.Register(&reg.Scenario{Property: "C12", Name: "hostile-2-unbounded", Body: body(2, false), Quick: 0, Thorough: 1,
 		Doc: "authenticated hostile peer: all sequences of <=2 frames of a 33-frame alphabet x abrupt disconnect, unbounded buffers; then a fresh and an established client call every object"})
 	reg.Register(&reg.Scenario{Property: "C12", Name: "hostile-2-bounded", Body: body(2, true), Quick: 0, Thorough: 1,
